@@ -15,6 +15,15 @@ import (
 	"github.com/nuts-foundation/nuts-node/vcr/verifier"
 )
 
+// C16, first sentence: "A discovery server lists a presentation only if it is a verifiable JWT presentation
+// addressed to that service, within the service's maximum validity and not outliving its credentials, signed by
+// a DID of an allowed method, whose credentials all and only fulfil the service's presentation definition; ...
+// and accepts a retraction only from the signer of an existing entry."
+//
+// H16a runs the real Module.verifyRegistration (+ validateAudience, validateRegistration, validateRetraction,
+// credential.PresentationSigner, did.ParseDIDURL, vc.VerifiablePresentation accessors, time.Until) on a
+// presentation value object.
+
 // The package init() compiles the service-definition JSON schema (embed + jsonschema): not needed here.
 //verif:stub github.com/nuts-foundation/nuts-node/discovery.init#1 => noop
 
@@ -30,6 +39,9 @@ import (
 // Presentation Exchange matching (vcr/pe, property C12) is a symbolic verdict, see hMatch.
 //verif:stub (github.com/nuts-foundation/nuts-node/vcr/pe.PresentationDefinition).Match => hMatch
 
+// time.Time.Sub on wall-clock instants, see hTimeSub.
+//verif:stub (time.Time).Sub => hTimeSub
+
 const hRaw = "<compact JWS of the presentation>"
 
 // ---------------------------------------------------------------------------------------------
@@ -38,15 +50,18 @@ const hRaw = "<compact JWS of the presentation>"
 type hEntry struct{ service, subject, id string }
 
 type hScenario struct {
+	serviceID string
+
 	// clock readings handed out so far (seconds, nanoseconds since the Unix epoch)
 	clockSec, clockNsec []int
 
-	// signer: index into hSigners, drawn when the code asks for the kid of the token
+	// signer: index into hSigners, drawn when the code asks for the kid of the token (-1: not yet)
 	signer int
 
-	// store content and fault
-	entries  []hEntry
-	storeErr bool
+	// store content and fault (drawn on first use)
+	storeDrawn bool
+	entries    []hEntry
+	storeErr   bool
 
 	// Match
 	matchCalls int
@@ -76,17 +91,18 @@ type hSigner struct {
 var hSigners = []hSigner{
 	{kid: "did:web:example.com#k1", isDID: true, method: "web", subject: "did:web:example.com"},
 	{kid: "did:nuts:abc#k1", isDID: true, method: "nuts", subject: "did:nuts:abc"},
-	{kid: "did:web:example.com:u:1#k2", isDID: true, method: "web", subject: "did:web:example.com:u:1"},
+	{kid: "did:abc:x:y?versionId=1#k2", isDID: true, method: "abc", subject: "did:abc:x:y"},
 	{kid: ""},
-	{kid: "#k1"},  // relative DID URL: parses, DID is empty
+	{kid: "#k1"},  // relative DID URL: go-did parses it, the DID is empty
 	{kid: "key1"}, // not a DID URL
 	{jwsErr: true},
 }
 
 func hJWTKidAlg(tokenString string) (string, jwa.SignatureAlgorithm, error) {
-	vAssert(tokenString == hRaw, "H16.kid_of_presentation: signer is not taken from the presentation's own JWS")
+	vAssert(tokenString == hRaw, "H16a.kid_of_presentation: signer is not taken from the presentation's own JWS")
 	if hS.signer < 0 {
-		hS.signer = vChoice(len(hSigners))
+		vTag("signer")
+		hS.signer = vChoice(vParam("signers", len(hSigners)))
 	}
 	s := hSigners[hS.signer]
 	if s.jwsErr {
@@ -95,7 +111,37 @@ func hJWTKidAlg(tokenString string) (string, jwa.SignatureAlgorithm, error) {
 	return s.kid, jwa.ES256, nil
 }
 
+// hDrawStore: up to `entries` rows (service, subject, presentation id). Service is the service under test or
+// another one; subject is the signer's DID or somebody else's; the id is an arbitrary string of jtilen bytes.
+func hDrawStore() {
+	if hS.storeDrawn {
+		return
+	}
+	hS.storeDrawn = true
+	vTag("store.err")
+	hS.storeErr = vBool()
+	if hS.storeErr {
+		return
+	}
+	n := vLen(0, vParam("entries", 1))
+	for i := 0; i < n; i++ {
+		e := hEntry{service: "another-service", subject: "did:web:somebody.else"}
+		vTag("entry.sameService")
+		if vBool() {
+			e.service = hS.serviceID
+		}
+		vTag("entry.sameSubject")
+		if vBool() && hS.signer >= 0 {
+			e.subject = hSigners[hS.signer].subject
+		}
+		vTag("entry.id")
+		e.id = vString(vParam("jtilen", 2))
+		hS.entries = append(hS.entries, e)
+	}
+}
+
 func hStoreExists(s *sqlStore, serviceID string, credentialSubjectID string, presentationID string) (bool, error) {
+	hDrawStore()
 	if hS.storeErr {
 		return false, errors.New("harness: database error")
 	}
@@ -109,14 +155,16 @@ func hStoreExists(s *sqlStore, serviceID string, credentialSubjectID string, pre
 
 // hMatch follows the contract of pe.PresentationDefinition.Match as implemented by matchBasic /
 // matchSubmissionRequirements: on success it returns credentials taken from its input - one per input
-// descriptor (matchBasic: the first credential that matches the descriptor, so the same credential can be
+// descriptor (matchBasic: for every descriptor the first credential that satisfies it, so one credential can be
 // returned for several descriptors) or a de-duplicated selection (submission requirements); otherwise an error.
 func hMatch(pd pe.PresentationDefinition, vcs []vc.VerifiableCredential) ([]vc.VerifiableCredential, []pe.InputDescriptorMappingObject, error) {
 	hS.matchCalls++
+	vTag("match.err")
 	hS.matchErr = vBool()
 	if hS.matchErr {
 		return nil, nil, errors.Join(pe.ErrNoCredentials, errors.New("harness: constraints not matched"))
 	}
+	vTag("match.n")
 	n := vLen(0, vParam("matched", 2))
 	if n > 0 && len(vcs) == 0 {
 		// a descriptor without any candidate credential cannot be matched
@@ -126,6 +174,7 @@ func hMatch(pd pe.PresentationDefinition, vcs []vc.VerifiableCredential) ([]vc.V
 	var out []vc.VerifiableCredential
 	var maps []pe.InputDescriptorMappingObject
 	for i := 0; i < n; i++ {
+		vTag("match.idx")
 		k := vChoice(len(vcs))
 		hS.matchIdx = append(hS.matchIdx, k)
 		out = append(out, vcs[k])
@@ -134,33 +183,204 @@ func hMatch(pd pe.PresentationDefinition, vcs []vc.VerifiableCredential) ([]vc.V
 	return out, maps, nil
 }
 
-// clock: monotone, symbolic; every reading is recorded
+// ---------------------------------------------------------------------------------------------
+// time
+
+const hUnixToInternal = (1969*365 + 1969/4 - 1969/100 + 1969/400) * 86400
+
+// hWallTime builds the time.Time for (sec, nsec) since the Unix epoch in UTC without monotonic reading, exactly
+// what time.Unix(sec, nsec).UTC() yields for 0 <= nsec < 1e9 (written field by field because setLoc/stripMono
+// test `wall & hasMonotonic`, which the integer encoding cannot express for a symbolic wall word).
+func hWallTime(sec, nsec int) time.Time {
+	var t time.Time
+	vSetField(&t, "wall", uint64(nsec))
+	vSetField(&t, "ext", int64(sec)+hUnixToInternal)
+	return t
+}
+
+// clock: monotone, symbolic seconds and nanoseconds; every reading is recorded for the oracle.
 func vhNow() time.Time {
+	vTag("now.sec")
 	sec := vRange(0, 1<<36)
+	vTag("now.nsec")
 	nsec := vRange(0, 999999999)
 	if n := len(hS.clockSec); n > 0 {
 		vAssume(sec > hS.clockSec[n-1] || (sec == hS.clockSec[n-1] && nsec >= hS.clockNsec[n-1]))
 	}
 	hS.clockSec = append(hS.clockSec, sec)
 	hS.clockNsec = append(hS.clockNsec, nsec)
-	return time.Unix(int64(sec), int64(nsec)).UTC()
+	return hWallTime(sec, nsec)
 }
 
-// hToken is the parsed JWT of the presentation (claims only).
+// hTimeSub is time.Time.Sub (go1.23 source, line by line) specialised to instants without a monotonic clock
+// reading (everything decoded from a JWT/JSON, and the harness clock; asserted below). Same model as used for
+// C02: the real Sub calls u.Add(d) with a symbolic d, which rewrites the wall word with bit operations
+// (`wall&^nsecMask | nsec`, `wall&hasMonotonic`) that the engine's integer encoding cannot express, and the
+// 64-bit bit-vector encoding of the *1e9 and /1e9 in Sub is not decided by z3.
+func hTimeSub(t, u time.Time) time.Duration {
+	const nsecMask = 1<<30 - 1
+	const minDuration, maxDuration = time.Duration(-1 << 63), time.Duration(1<<63 - 1)
+	tw, uw := vGetField(&t, "wall").(uint64), vGetField(&u, "wall").(uint64)
+	vAssert(tw < 1<<63 && uw < 1<<63, "H16a.time_model: instant with monotonic clock reading reached the Sub model")
+	ts, us := vGetField(&t, "ext").(int64), vGetField(&u, "ext").(int64) // sec()
+	tn, un := int32(tw&nsecMask), int32(uw&nsecMask)                       // nsec()
+	d := time.Duration(ts-us)*time.Second + time.Duration(tn-un)
+	// u.Add(d)
+	dsec := int64(d / 1e9)
+	nsec := un + int32(d%1e9)
+	if nsec >= 1e9 {
+		dsec++
+		nsec -= 1e9
+	} else if nsec < 0 {
+		dsec--
+		nsec += 1e9
+	}
+	// addSec(dsec)
+	var asec int64
+	sum := us + dsec
+	if (sum > us) == (dsec > 0) {
+		asec = sum
+	} else if dsec > 0 {
+		asec = 1<<63 - 1
+	} else {
+		asec = -(1<<63 - 1)
+	}
+	switch {
+	case asec == ts && nsec == tn: // u.Add(d).Equal(t)
+		return d
+	case ts < us || ts == us && tn < un: // t.Before(u)
+		return minDuration
+	default:
+		return maxDuration
+	}
+}
+
+// hFracs: nanosecond parts for instants decoded from the presentation (concretised, see hWallTime): a JWT
+// NumericDate has whole seconds (jwx default precision); RFC 3339 values (credential expirationDate, or an
+// `exp` given as RFC 3339 string, which jwx tolerates) can carry a fraction.
+var hFracs = []int{0, 999999999, 1}
+
+type hInstant struct {
+	present   bool
+	sec, nsec int
+	t         time.Time
+}
+
+func hDrawInstant(name string) hInstant {
+	vTag(name + ".present")
+	if !vBool() {
+		return hInstant{}
+	}
+	vTag(name + ".sec")
+	s := vRange(-(1 << 40), 1<<40)
+	vTag(name + ".nsec")
+	n := hFracs[vChoice(vParam("fracs", 1))]
+	return hInstant{present: true, sec: s, nsec: n, t: hWallTime(s, n)}
+}
+
+// hAfter: a is a later instant than b (reference predicate on the decomposition).
+func hAfter(a, b hInstant) bool {
+	return a.sec > b.sec || (a.sec == b.sec && a.nsec > b.nsec)
+}
+
+// ---------------------------------------------------------------------------------------------
+// the JWT of the presentation (claims only). Claims are drawn when the code first asks for them.
+
 type hToken struct {
 	jwt.Token
-	aud     []string
-	exp     time.Time
-	private map[string]interface{}
+	audDrawn bool
+	aud      []string
+	expDrawn bool
+	exp      hInstant
+	jtiDrawn bool
+	jtiKind  int
+	jti      interface{}
+	jtiSet   bool
+	getOther bool
 }
 
-func (t *hToken) Audience() []string    { return t.aud }
-func (t *hToken) Expiration() time.Time { return t.exp }
-func (t *hToken) Get(name string) (interface{}, bool) {
-	v, ok := t.private[name]
-	return v, ok
+func (t *hToken) Audience() []string {
+	if !t.audDrawn {
+		t.audDrawn = true
+		idlen := len(hS.serviceID)
+		vTag("aud.n")
+		n := vLen(0, vParam("auds", 2))
+		for i := 0; i < n; i++ {
+			vTag("aud.samelen")
+			if vBool() {
+				vTag("aud.value")
+				t.aud = append(t.aud, vString(idlen))
+			} else {
+				vTag("aud.value")
+				t.aud = append(t.aud, vString(idlen+1))
+			}
+		}
+	}
+	return t.aud
 }
+
+func (t *hToken) Expiration() time.Time {
+	if !t.expDrawn {
+		t.expDrawn = true
+		t.exp = hDrawInstant("exp")
+	}
+	if !t.exp.present {
+		return time.Time{}.UTC() // jwx: absent claim
+	}
+	return t.exp.t
+}
+
+const (
+	hJtiAbsent = iota
+	hJtiNull
+	hJtiBool
+	hJtiNumber
+	hJtiEmptyString
+	hJtiString
+	hJtiArray
+	hJtiObject
+	hJtiKinds
+)
+
+// Get: private claims hold whatever encoding/json decodes into interface{}:
+// nil, bool, float64, string, []interface{}, map[string]interface{}.
+func (t *hToken) Get(name string) (interface{}, bool) {
+	if name != "retract_jti" {
+		t.getOther = true
+		return nil, false
+	}
+	if !t.jtiDrawn {
+		t.jtiDrawn = true
+		vTag("retract_jti.kind")
+		t.jtiKind = vChoice(hJtiKinds)
+		t.jtiSet = true
+		switch t.jtiKind {
+		case hJtiAbsent:
+			t.jtiSet = false
+		case hJtiNull:
+			t.jti = nil
+		case hJtiBool:
+			t.jti = vBool()
+		case hJtiNumber:
+			t.jti = vF64()
+		case hJtiEmptyString:
+			t.jti = ""
+		case hJtiString:
+			vTag("retract_jti")
+			t.jti = vString(vParam("jtilen", 2))
+		case hJtiArray:
+			t.jti = []interface{}{"a"}
+		case hJtiObject:
+			t.jti = map[string]interface{}{"a": "b"}
+		}
+	}
+	return t.jti, t.jtiSet
+}
+
 func (t *hToken) Clone() (jwt.Token, error) { return t, nil }
+
+// ---------------------------------------------------------------------------------------------
+// VCR / verifier fakes
 
 type hVCR struct{ vcr.VCR }
 
@@ -168,23 +388,24 @@ func (hVCR) Verifier() verifier.Verifier { return hVerifier{} }
 
 type hVerifier struct{ verifier.Verifier }
 
-// VerifyVP: symbolic signature verdict. Contract taken from the real verifier (jwtSignature -> crypto.ParseJWT ->
-// jwx validation with the given clock, 1 s truncation, no skew): fails if the token is expired at validAt (or now),
-// and fails if the signing key cannot be resolved, which is the case for an empty signer DID.
+// VerifyVP: symbolic signature verdict. Contract taken from the real verifier (signatureVerifier.jwtSignature ->
+// crypto.ParseJWT -> jwx validation with the given clock, 1 s truncation, no skew): fails if the token is expired
+// at validAt (or now if nil); fails if the signing key cannot be resolved, which is the case for an empty signer DID.
 func (hVerifier) VerifyVP(presentation vc.VerifiablePresentation, verifyVCs bool, allowUntrustedVCs bool, validAt *time.Time) ([]vc.VerifiableCredential, error) {
 	hS.verifyCalls++
 	hS.verifyVCs = verifyVCs
+	vTag("signatures.ok")
 	hS.sigOK = vBool()
-	var now time.Time
 	if validAt != nil {
 		hS.verifyValidAt = true
-		now = *validAt
+		hS.verifyNowSec = int(validAt.Unix())
 	} else {
-		now = time.Now()
+		time.Now()
+		hS.verifyNowSec = hS.clockSec[len(hS.clockSec)-1]
 	}
-	hS.verifyNowSec = int(now.Unix())
-	exp := presentation.JWT().Expiration()
-	if !exp.IsZero() && !now.Truncate(time.Second).Before(exp.Truncate(time.Second)) {
+	tok := presentation.JWT().(*hToken)
+	tok.Expiration()
+	if tok.exp.present && hS.verifyNowSec >= tok.exp.sec {
 		return nil, errors.New("harness: token is expired")
 	}
 	if hS.signer < 0 || !hSigners[hS.signer].isDID {
@@ -197,25 +418,211 @@ func (hVerifier) VerifyVP(presentation vc.VerifiablePresentation, verifyVCs bool
 	return presentation.VerifiableCredential, nil
 }
 
+// ---------------------------------------------------------------------------------------------
+
 func hURI(s string) ssi.URI { return ssi.MustParseURI(s) }
 
-func H16probe() {
+var hTypes = [][]string{
+	{"VerifiablePresentation"},
+	{"VerifiablePresentation", "RetractedVerifiablePresentation"},
+	{"RetractedVerifiablePresentation"},
+	{},
+}
+
+type hCase struct {
+	m         *Module
+	def       ServiceDefinition
+	vp        vc.VerifiablePresentation
+	tok       *hToken
+	format    string
+	hasID     bool
+	retract   bool // ground truth: the presentation carries the retraction type
+	credExp   []hInstant
+	maxValid  int
+	methods   []string
+}
+
+func hNewCase() *hCase {
+	c := &hCase{}
 	hS = &hScenario{signer: -1}
-	m := &Module{vcrInstance: hVCR{}, store: &sqlStore{}}
-	def := ServiceDefinition{ID: "svc", PresentationMaxValidity: vRange(1, 1<<32)}
-	vp := vc.VerifiablePresentation{}
-	id := hURI("urn:x")
-	vp.ID = &id
-	vp.Type = []ssi.URI{hURI("VerifiablePresentation")}
-	es := vRange(-(1 << 40), 1<<40)
-	tok := &hToken{aud: []string{"svc"}, exp: time.Unix(int64(es), 0).UTC()}
-	vSetField(&vp, "format", vc.JWTPresentationProofFormat)
-	vSetField(&vp, "raw", hRaw)
-	vSetField(&vp, "token", jwt.Token(tok))
-	err := m.verifyRegistration(def, vp)
-	if err == nil {
-		vCover("accepted")
-		vAssert(es-hS.clockSec[0] <= def.PresentationMaxValidity, "H16probe.max: too long")
-		vAssert(es > hS.clockSec[0], "H16probe.future: expired")
+	c.m = &Module{vcrInstance: hVCR{}, store: &sqlStore{}}
+
+	// the service (operator configuration, JSON schema: id non-empty, presentation_max_validity >= 1)
+	vTag("service.id")
+	hS.serviceID = vString(vParam("idlen", 2))
+	vTag("service.max_validity")
+	c.maxValid = vRange(1, 1<<32)
+	vTag("service.did_methods.n")
+	nm := vLen(0, vParam("methods", 2))
+	for i := 0; i < nm; i++ {
+		vTag("service.did_method")
+		if vBool() {
+			c.methods = append(c.methods, vString(3))
+		} else {
+			c.methods = append(c.methods, vString(4))
+		}
+	}
+	c.def = ServiceDefinition{ID: hS.serviceID, DIDMethods: c.methods, Endpoint: "https://example.com/discovery", PresentationMaxValidity: c.maxValid}
+
+	// the presentation
+	vTag("vp.format")
+	c.format = vString(6) // "jwt_vp", "ldp_vp", or anything else of that length
+	vTag("vp.hasID")
+	c.hasID = vBool()
+	if c.hasID {
+		id := hURI("urn:uuid:0e7a3b9e")
+		c.vp.ID = &id
+	}
+	vTag("vp.type")
+	types := hTypes[vChoice(vParam("types", len(hTypes)))]
+	for _, t := range types {
+		c.vp.Type = append(c.vp.Type, hURI(t))
+		if t == "RetractedVerifiablePresentation" {
+			c.retract = true
+		}
+	}
+	vTag("vp.credentials")
+	nc := vLen(0, vParam("creds", 2))
+	for i := 0; i < nc; i++ {
+		var cred vc.VerifiableCredential
+		e := hDrawInstant("credential.expirationDate")
+		if e.present {
+			t := e.t
+			cred.ExpirationDate = &t
+		}
+		c.credExp = append(c.credExp, e)
+		c.vp.VerifiableCredential = append(c.vp.VerifiableCredential, cred)
+	}
+	c.tok = &hToken{}
+	vSetField(&c.vp, "format", c.format)
+	vSetField(&c.vp, "raw", hRaw)
+	vSetField(&c.vp, "token", jwt.Token(c.tok))
+	return c
+}
+
+// hWithinMaxValidity: exp - now <= max seconds, in exact arithmetic (seconds first, no overflow: |ds| < 2^42).
+func hWithinMaxValidity(exp hInstant, nowSec, nowNsec, max int) bool {
+	ds := exp.sec - nowSec
+	dn := exp.nsec - nowNsec // -1e9 < dn < 1e9
+	if ds < max {
+		return true
+	}
+	return ds == max && dn <= 0
+}
+
+func H16a() {
+	c := hNewCase()
+	err := c.m.verifyRegistration(c.def, c.vp)
+	tok := c.tok
+
+	if err != nil {
+		vCover("rejected")
+		return
+	}
+	vCover("accepted")
+	// a verifiable JWT presentation ...
+	vAssert(c.format == vc.JWTPresentationProofFormat, "H16a.jwt_format: accepted a presentation that is not in JWT format")
+	vAssert(c.hasID, "H16a.has_id: accepted a presentation without id")
+	vAssert(hS.verifyCalls > 0 && hS.verifyAccepted, "H16a.vp_verified: accepted a presentation whose signature verification did not succeed")
+	vAssert(hS.verifyCalls > 0 && hS.verifyVCs, "H16a.credentials_verified: accepted a presentation without verifying its credentials")
+	// ... addressed to that service ...
+	addressed := false
+	if tok.audDrawn {
+		for _, a := range tok.aud {
+			if len(a) == len(hS.serviceID) {
+				same := true
+				for i := 0; i < len(a); i++ {
+					if a[i] != hS.serviceID[i] {
+						same = false
+					}
+				}
+				if same {
+					addressed = true
+				}
+			}
+		}
+	}
+	vAssert(addressed, "H16a.audience: accepted a presentation whose audience does not contain the service id")
+	// ... within the service's maximum validity ...
+	vAssert(tok.expDrawn && tok.exp.present, "H16a.has_expiration: accepted a presentation without expiration")
+	vAssert(len(hS.clockSec) > 0, "H16a.clock_read: accepted without reading the clock")
+	vAssert(hWithinMaxValidity(tok.exp, hS.clockSec[0], hS.clockNsec[0], c.maxValid), "H16a.max_validity: accepted a presentation that is valid longer than the service's maximum validity")
+	vAssert(tok.exp.sec > hS.clockSec[0], "H16a.not_expired: accepted a presentation that is already expired")
+	vAssert(!hS.verifyValidAt, "H16a.verified_now: presentation was verified for another instant than now")
+	// ... signed by a DID of an allowed method ...
+	vAssert(hS.signer >= 0 && hSigners[hS.signer].isDID, "H16a.signer_is_did: accepted a presentation whose signer is not a DID")
+	if len(c.methods) > 0 {
+		allowed := false
+		for _, m := range c.methods {
+			if m == hSigners[hS.signer].method {
+				allowed = true
+			}
+		}
+		vAssert(allowed, "H16a.did_method_allowed: accepted a presentation signed by a DID of a method the service does not allow")
+		vCover("accepted-method-listed")
+	} else {
+		vCover("accepted-any-method")
+	}
+	if !c.retract {
+		vCover("accepted-registration")
+		// ... not outliving its credentials ...
+		for _, e := range c.credExp {
+			if e.present {
+				vCover("accepted-credential-with-expiration")
+				vAssert(!hAfter(tok.exp, e), "H16a.not_outliving_credentials: accepted a presentation that is valid longer than one of its credentials")
+			}
+		}
+		// ... whose credentials all and only fulfil the presentation definition
+		vAssert(hS.matchCalls == 1 && !hS.matchErr, "H16a.definition_matched: accepted a registration that does not fulfil the presentation definition")
+		for i := range c.credExp {
+			matched := false
+			for _, k := range hS.matchIdx {
+				if k == i {
+					matched = true
+				}
+			}
+			if !matched {
+				dup := false
+				for a := 0; a < len(hS.matchIdx); a++ {
+					for b := a + 1; b < len(hS.matchIdx); b++ {
+						if hS.matchIdx[a] == hS.matchIdx[b] {
+							dup = true
+						}
+					}
+				}
+				if dup {
+					vClass("one credential satisfies several input descriptors")
+				}
+			}
+			vAssert(matched, "H16a.all_credentials_matched: accepted a registration with a credential that the presentation definition did not select")
+		}
+		if len(c.credExp) == 2 {
+			vCover("accepted-two-credentials")
+		}
+		vAssert(!tok.jtiDrawn && !hS.storeDrawn, "H16a.registration_path: a registration consulted retraction data")
+	} else {
+		vCover("accepted-retraction")
+		vAssert(len(c.credExp) == 0, "H16a.retraction_without_credentials: accepted a retraction that contains credentials")
+		vAssert(tok.jtiDrawn && tok.jtiSet, "H16a.retraction_has_jti: accepted a retraction without retract_jti claim")
+		jti, isString := tok.jti.(string)
+		vAssert(isString && jti != "", "H16a.retraction_jti_string: accepted a retraction whose retract_jti is not a non-empty string")
+		found := false
+		if hS.storeDrawn && !hS.storeErr {
+			for _, e := range hS.entries {
+				if e.service == hS.serviceID && e.subject == hSigners[hS.signer].subject && e.id == jti {
+					found = true
+				}
+			}
+		}
+		vAssert(found, "H16a.retraction_of_own_entry: accepted a retraction that does not refer to an existing entry of its signer on this service")
+		vAssert(hS.matchCalls == 0, "H16a.retraction_path: a retraction was matched against the presentation definition")
+	}
+}
+
+// H16a_twin: a registration and a retraction can both get through the real code.
+func H16a_twin() {
+	c := hNewCase()
+	if c.m.verifyRegistration(c.def, c.vp) == nil && c.retract && len(hS.entries) == 1 {
+		vAssert(false, "H16a_twin.reach: reachable")
 	}
 }
